@@ -294,7 +294,7 @@ def check_program(job):
     prog = job["prog"]
     text = S.show(prog)
     base = {"id": job["id"], "program": text, "nontrivial": True}
-    built, sim, problem = symsim.construct_or_report(lambda: S.build(prog), base, {"prog": prog, "state": {}, "rst": 0})
+    built, sim, problem = symsim.construct_or_report(lambda: build_design(prog), base, {"prog": prog, "state": {}, "rst": 0})
     if problem is not None:
         return [problem]
     m, sigs, domains = built
@@ -329,6 +329,7 @@ def check_program(job):
                 if kind in ("in", "sync"):
                     env0[n] = sim.value(sigs[n])
             rst = sim.value(cd.rst) if cd.rst is not None else 0
+            sim_en = sim.value(sigs["__en"]) if "__en" in sigs else 1
             sim.settle()
             quiet = [(e.kind, e.guard) for e in sim.interp.effects]
             sim.interp.effects.clear()
@@ -340,6 +341,10 @@ def check_program(job):
             env = oracle.comb(env0)
             events = []
             oracle.step(env, rst=rst, events=events)
+            if "__en" in sigs:
+                # inside EnableInserter(en): every statement of the domain, Print and Assert included, is active only while en is high
+                env0["__en"] = sim_en
+                events = [(st_, sym_and(c_, sim_en != 0), e_) for st_, c_, e_ in events]
             return env0, rst, effects, quiet, events
         try:
             paths = explore(scenario, assumptions=assumptions, max_paths=64)
@@ -502,6 +507,22 @@ class _E:
         self.kind, self.guard, self.args, self.pre = e.kind, e.guard, e.args, pre
 
 
+def build_design(prog):
+    """S.build(prog); with prog['wrap_enable'] the design sits inside EnableInserter(en) (the enable is the signal sigs['__en'])."""
+    if not prog.get("wrap_enable"):
+        return S.build(prog)
+    from amaranth.hdl import Module, ClockDomain, EnableInserter
+    sigs = {}
+    inner, sigs, _ = S.build(prog, define_domain=False, sigs=sigs)
+    top = Module()
+    cd = ClockDomain("sync")
+    top.domains += cd
+    en = Signal(1, name="en_wrap")
+    sigs["__en"] = en
+    top.submodules.wrapped = EnableInserter(en)(inner)
+    return top, sigs, {"sync": cd}
+
+
 def concrete_run(prog, env0, rst, edges=1):
     """Real simulator: stdout and assertion text for one active edge (plus the inactive edge)."""
     from amaranth.sim import Simulator, Period
@@ -509,7 +530,7 @@ def concrete_run(prog, env0, rst, edges=1):
     err = None
     with symsim.real_states(), warnings.catch_warnings():
         warnings.simplefilter("ignore")
-        m, sigs, domains = S.build(prog)
+        m, sigs, domains = build_design(prog)
         sim = Simulator(m)
         sim.add_clock(Period(MHz=1))
 
@@ -520,6 +541,8 @@ def concrete_run(prog, env0, rst, edges=1):
             for name, fs in prog.get("fsms", {}).items():
                 fsm = sigs["fsm:" + name]
                 ctx.set(fsm.state, fsm.encoding[fs["states"][env0["fsm:" + name]]])
+            if "__en" in sigs:
+                ctx.set(sigs["__en"], env0.get("__en", 1))
             if domains["sync"].rst is not None:
                 ctx.set(domains["sync"].rst, rst)
             buf.write("\x02")          # everything before this mark was emitted outside an active edge
@@ -547,7 +570,7 @@ def oracle_concrete(prog, env0, rst):
     oracle.step(env, rst=rst, events=events)
     out, err = "\x02", None
     for st, cond, env_ in events:
-        if not cond:
+        if not cond or (prog.get("wrap_enable") and not env0.get("__en", 1)):
             continue
         try:
             if st[0] == "print":
@@ -1064,6 +1087,15 @@ def corner_programs():
                         ["print", "sync", "<4>[{:4c}][{:<3c}][{:2c}]", [sg("t0", 8), sg("t2", 20), sg("t0", 8)]],
                         ["assume", "sync", ["index", sg("i0", 3), 1], "<5>i0 left the set {{0, 1}} of {lo, hi}", None],
                         ["assign", "sync", sg("r0", 3), sg("i0", 3)]]})
+    # a monitor with nothing but Print / Assert in its domain, inside EnableInserter: no statement runs while the enable is low
+    P.append({"signals": copy.deepcopy(base_sigs), "fsms": {}, "wrap_enable": True,
+              "stmts": [["print", "sync", "<0>data={:02x}", [sg("t0", 8)]],
+                        ["assert", "sync", ["ne", sg("i0", 3), ["const", 5, None, False]], "<1>i0 is {:d}", [sg("i0", 3)]],
+                        ["if", [[sg("i1", 4, True), [["print", "sync", "<2>{:+d}", [sg("i1", 4, True)]]]]], None]]})
+    P.append({"signals": copy.deepcopy(base_sigs), "fsms": {}, "wrap_enable": True,
+              "stmts": [["assign", "sync", sg("r0", 3), ["add", sg("r0", 3), ["const", 1, None, False]]],
+                        ["print", "sync", "<0>r0={:d}", [sg("r0", 3)]],
+                        ["assume", "sync", ["index", sg("r0", 3), 0], "<1>odd", None]]})
     return P
 
 
